@@ -8,10 +8,17 @@ from c02 import unit6
 from c04 import lse
 
 
+STRICT = [False]      # set per case: many well-conditioned stations, where a value below -600 is an ordinary number
+
+
 def lp_close(a, b):
     """log-probabilities agree (values below -28 per entry are 'effectively zero' on both sides)"""
     if a == b:
         return True
+    if STRICT[0]:
+        if math.isnan(a) or math.isnan(b) or math.isinf(a) or math.isinf(b):
+            return False
+        return abs(a - b) <= 1e-7 + 1e-9 * max(abs(a), abs(b))
     if (a == NEG_INF or a < -600) and (b == NEG_INF or b < -600):
         return True
     if math.isnan(a) or math.isnan(b) or math.isinf(a) or math.isinf(b):
@@ -56,6 +63,20 @@ class C01(Prop):
                    'return_zero': rng.random() < 0.4,
                    'probe': rng.choice(['perm_stations', 'batch', 'perm_samples', 'dup_weight', 'filter', 'drop_type', 'loc_order']),
                    'probe_seed': rng.randrange(1 << 30)}
+        # many stations, every one moderately unlikely (two sigma against the first tensor): the joint value lies far below
+        # ln(1e-308) although no station has probability zero; values are compared strictly
+        for i in range(4 if tier == 'quick' else 40):
+            ns = rng.choice([150, 300])
+            mts = [unit6(rng) for _ in range(3)]
+            rows = []
+            for nm_ in dg.station_names(rng, ns, pool=1000):
+                az, toa = rng.uniform(0, 360), rng.uniform(10, 170)
+                amp = sum(a * b for a, b in zip(dg.coeff_row('p', az, toa), mts[0]))
+                pol = -1.0 if amp >= 0 else 1.0                      # against the first tensor
+                rows.append({'name': nm_, 'az': az, 'toa': toa, 'measured': [pol], 'error': [max(abs(amp) / 2.0, 1e-3)], 'ipp': None})
+            ev = {'types': {'PPolarity': rows}, 'loc': None, 'weights': None}
+            yield {'kind': 'forward', 'event': ev, 'mts': mts, 'marginalise': True, 'return_zero': True, 'probe': 'perm_stations',
+                   'probe_seed': rng.randrange(1 << 30), 'many': True}
         # the same value reported by an inversion requested through the front end (Inversion object, random sampling)
         for i in range(8 if tier == 'quick' else 80):
             ev = dg.gen_event(rng, want_loc=False)
@@ -162,6 +183,7 @@ class C01(Prop):
         return [[float(v) for v in mts[:, j]] for j in range(mts.shape[1])], [float(v) for v in ln], int(res['total_number_samples'])
 
     def impl(self, case):
+        STRICT[0] = bool(case.get('many'))
         if case['kind'] == 'frontend':
             mts, ln, tried = self._frontend(case)
             # the tensors the front end kept (non-zero probability) become the batch of this case
